@@ -4552,7 +4552,9 @@ class ResponseFuture(object):
                 self._timer = self.session.cluster.connection_class.create_timer(0.01, self._on_speculative_execute)
                 return
 
-            self.send_request(error_no_hosts=False)
+            # this runs on the event loop thread: never wait for a free stream id here, a
+            # host whose connections are all busy is skipped for the speculative attempt
+            self.send_request(error_no_hosts=False, borrow_timeout=0)
             self._start_timer()
 
     def _make_query_plan(self):
@@ -4567,12 +4569,12 @@ class ResponseFuture(object):
             # they last left off
             self.query_plan = iter(self._load_balancer.make_query_plan(self.session.keyspace, self.query))
 
-    def send_request(self, error_no_hosts=True):
+    def send_request(self, error_no_hosts=True, borrow_timeout=2.0):
         """ Internal """
         # query_plan is an iterator, so this will resume where we last left
         # off if send_request() is called multiple times
         for host in self.query_plan:
-            req_id = self._query(host)
+            req_id = self._query(host, borrow_timeout=borrow_timeout)
             if req_id is not None:
                 self._req_id = req_id
                 return True
@@ -4584,7 +4586,7 @@ class ResponseFuture(object):
                 "Unable to complete the operation against any hosts", self._errors))
         return False
 
-    def _query(self, host, message=None, cb=None):
+    def _query(self, host, message=None, cb=None, borrow_timeout=2.0):
         if message is None:
             message = self.message
 
@@ -4601,7 +4603,7 @@ class ResponseFuture(object):
         connection = None
         try:
             # TODO get connectTimeout from cluster settings
-            connection, request_id = pool.borrow_connection(timeout=2.0)
+            connection, request_id = pool.borrow_connection(timeout=borrow_timeout)
             self._connection = connection
             result_meta = self.prepared_statement.result_metadata if self.prepared_statement else []
 
